@@ -24,6 +24,16 @@ func (ft *funcTrans) calleeContract(com *ssa.CallCommon) *Contract {
 		return ft.p.Contracts[key]
 	}
 	if fn := com.StaticCallee(); fn != nil {
+		// contract specialised by the dynamic type of an interface argument:
+		// key "pkg.Func<concrete type>" (e.g. sort.Sort<github.com/paulmach/osm.updatesSortIndex>)
+		if len(com.Args) > 0 {
+			if mi, ok := com.Args[0].(*ssa.MakeInterface); ok {
+				key := fn.String() + "<" + types.TypeString(mi.X.Type(), nil) + ">"
+				if c := ft.p.Contracts[key]; c != nil {
+					return c
+				}
+			}
+		}
 		if c := ft.p.Contracts[fn.String()]; c != nil {
 			return c
 		}
@@ -100,7 +110,14 @@ func (ft *funcTrans) call(in ssa.CallInstruction, val *ssa.Call) {
 	} else {
 		sig = com.Value.Type().Underlying().(*types.Signature)
 	}
-	for _, a := range com.Args {
+	specialised := strings.Contains(c.Key, "<")
+	for ai, a := range com.Args {
+		if specialised && ai == 0 {
+			if mi, ok := a.(*ssa.MakeInterface); ok {
+				actuals = append(actuals, ft.termOf(mi.X))
+				continue
+			}
+		}
 		v := ft.valOf(a)
 		if v.L != nil || v.Bad != "" {
 			// interior pointer passed to a call: cannot model
@@ -253,7 +270,15 @@ func (ft *funcTrans) designatorHeaps(e Expr, callee *ssa.Function, com *ssa.Call
 		env["recv"] = env[fmt.Sprintf("arg%d", i-1)]
 	}
 	for k := 0; k < sig.Params().Len(); k++ {
-		add(sig.Params().At(k).Name(), sig.Params().At(k).Type())
+		pt := sig.Params().At(k).Type()
+		if k == 0 && len(com.Args) > 0 {
+			if mi, ok := com.Args[0].(*ssa.MakeInterface); ok {
+				if cc := ft.calleeContract(com); cc != nil && strings.Contains(cc.Key, "<") {
+					pt = mi.X.Type()
+				}
+			}
+		}
+		add(sig.Params().At(k).Name(), pt)
 	}
 	tmp := &State{heaps: map[string]string{}, locals: map[string]string{}, alloc: "0"}
 	ec := &evalCtx{w: w, pkg: pkg, env: env, st: tmp}
